@@ -50,82 +50,10 @@ func checkC20(c *Ctx) (string, []string) {
 	S := "shuffle."
 
 	c.Rule("C20.shuffle", "numericSequenceFromHash: r_i is the 4-byte little-endian number at offset 4i mod 32 of Blake2b(h ⌢ E_4(⌊i/8⌋)) (the block counter and the offsets are evaluated for i = 0..5000); FisherYatesShuffle selects s[r_0 mod |s|], swaps it with the last element, recurses on (s[:|s|-1], r[1:]) and prepends the selected element; Shuffle draws |s| numbers", 10)
-	{
-		idx := loopIndexPhis(nsq)
-		var i *ssa.Phi
-		if len(idx) == 1 {
-			i = idx[0]
-		}
-		var floorArg, lenArg, lo, hi ssa.Value
-		allInstrs(nsq, func(in ssa.Instruction) {
-			switch x := in.(type) {
-			case *ssa.Call:
-				if calleeFunc(x) == ser {
-					floorArg, lenArg = x.Call.Args[0], x.Call.Args[1]
-				}
-			case *ssa.Slice:
-				if x.Low != nil && x.High != nil {
-					lo, hi = x.Low, x.High
-				}
-			}
-		})
-		ok := i != nil && floorArg != nil && lo != nil
-		why := ""
-		if ok {
-			for k := int64(0); k <= c.Deep(5000, 300000) && ok; k++ {
-				env := intEnv{params: map[ssa.Value]int64{i: k}}
-				f, ok1 := evalInt(floorArg, env, 0)
-				l, ok2 := evalInt(lo, env, 0)
-				h, ok3 := evalInt(hi, env, 0)
-				n, ok4 := evalInt(lenArg, env, 0)
-				if !(ok1 && ok2 && ok3 && ok4) {
-					ok, why = false, "counter/offset expressions are not pure functions of the loop index"
-				} else if f != k/8 || l != (4*k)%32 || h != l+4 || n != 4 {
-					ok, why = false, fmt.Sprintf("for i=%d: counter=%d in %d bytes, slice [%d:%d]; GP: counter %d in 4 bytes, slice [%d:%d]", k, f, n, l, h, k/8, (4*k)%32, (4*k)%32+4)
-				}
-			}
-		} else {
-			why = "loop index / SerializeFixedLength call / hash slice not found"
-		}
-		c.Check(ok, "C20.shuffle", S+"numericSequenceFromHash · counter and offsets", nsq.Pos(), "E_4(⌊i/8⌋), bytes [4i mod 32, +4) for i = 0..5000", why)
-		effs := abbrAll(effectShapesOpt(nsq, func(n string) bool { return strings.Contains(n, "shuffle.") || strings.Contains(n, "hash.") }, true))
-		h := "hash.Blake2bHash(append(p0[:], shuffle.SerializeFixedLength(u64(*), 4)))"
-		c.checkEffects("C20.shuffle", S+"numericSequenceFromHash", nsq, effs, []string{
-			"call " + h, "call shuffle.DeserializeFixedLength(" + h + "[*:*])", "call shuffle.SerializeFixedLength(u64(*), 4)",
-			"store &make([]types.U32, p1)[*] ← u32(shuffle.DeserializeFixedLength(" + h + "[*:*]))",
-		})
-		// the counter is widened, never narrowed, on its way to the serializer
-		narrow := false
-		var walk func(v ssa.Value, d int)
-		walk = func(v ssa.Value, d int) {
-			if d > 6 {
-				return
-			}
-			if cv, ok := v.(*ssa.Convert); ok {
-				if intBits(cv.Type()) < 32 {
-					narrow = true
-				}
-				walk(cv.X, d+1)
-			}
-			if b, ok := v.(*ssa.BinOp); ok {
-				walk(b.X, d+1)
-			}
-		}
-		if floorArg != nil {
-			walk(floorArg, 0)
-		}
-		c.Check(!narrow, "C20.shuffle", S+"numericSequenceFromHash · counter width", nsq.Pos(), "block counter keeps at least 32 bits", "the block counter is narrowed below 32 bits before it is serialised: the sequence repeats for long inputs")
-	}
+	c20NumericSequence(c, nsq, ser, des)
 	c.checkEffects("C20.shuffle", S+"SerializeFixedLength", ser, abbrAll(effectShapesOpt(ser, nil, true)), []string{"store &make([]byte, p1)[*] ← u8((255 & phi((cyc >> 8) | p0)))"})
 	c.checkShapes("C20.shuffle", S+"DeserializeFixedLength", des, abbrMap(returnShapes(des)), map[string][]string{"ret": {"phi(((cyc << 8) | u64(p0[phi((cyc - 1) | (len(p0) - 1))])) | 0)"}})
-	sel := "p0[(p1[0] % u32(len(p0)))]"
-	c.checkCondSet("C20.shuffle", S+"FisherYatesShuffle", fy, []string{"(0 == len(p0))"})
-	c.checkEffects("C20.shuffle", S+"FisherYatesShuffle", fy, abbrAll(effectShapesOpt(fy, func(n string) bool { return strings.Contains(n, "shuffle.") }, true)), []string{
-		"call shuffle.FisherYatesShuffle(p0[:(len(p0) - 1)], p1[1:])",
-		"store &p0[(len(p0) - 1)] ← " + sel,
-		"store &p0[(p1[0] % u32(len(p0)))] ← p0[(len(p0) - 1)]",
-	})
-	c.checkShapes("C20.shuffle", S+"FisherYatesShuffle", fy, abbrMap(returnShapes(fy)), map[string][]string{"ret": {"[][:0]", "append([" + sel + "][:], shuffle.FisherYatesShuffle(p0[:(len(p0) - 1)], p1[1:]))"}})
+	c20FisherYates(c, fy)
 	c.checkShapes("C20.shuffle", S+"Shuffle", sh, abbrMap(returnShapes(sh)), map[string][]string{"ret": {"shuffle.FisherYatesShuffle(p0, shuffle.numericSequenceFromHash(p1, u32(len(p0))))"}})
 
 	c.Rule("C20.determinism", "the call trees of Shuffle and NewGuranatorAssignments contain no map iteration, randomness, clock or goroutine, read no package-level variable other than protocol parameters and write none; because FisherYatesShuffle permutes its input in place, every caller of Shuffle/FisherYatesShuffle in the module passes a slice it has just made", 6)
@@ -318,4 +246,459 @@ func c20MoreParams(c *Ctx) [][2]int64 {
 		}
 	}
 	return out
+}
+
+// c20NumericSequence: r_i = LE32(Blake2b(h ⌢ E_4(⌊i/8⌋))[4(i mod 8) : +4]).
+// Two recognised forms: the hash is recomputed for every i from h ⌢ E_4(counter),
+// or it is recomputed exactly when ⌊i/8⌋ changes, from a buffer that holds a copy of
+// h followed by a 4-byte little-endian counter patched in place.
+func c20NumericSequence(c *Ctx, f, ser, des *ssa.Function) {
+	S := "shuffle."
+	key := S + "numericSequenceFromHash"
+	idx := loopIndexPhis(f)
+	if len(idx) != 1 {
+		c.Bad("C20.shuffle", key+" · counter and offsets", f.Pos(), "the counting loop over i was not found")
+		return
+	}
+	i := idx[0]
+	h := f.Params[0]
+	maxI := c.Deep(5000, 300000)
+	evalAll := func(v ssa.Value, want func(k int64) int64, what string) string {
+		for k := int64(0); k <= maxI; k++ {
+			got, ok := evalInt(v, intEnv{params: map[ssa.Value]int64{i: k}, closed: true}, 0)
+			if !ok {
+				return what + " " + abbr(exprStr(v, shapeOpts)) + " is not a pure function of the loop index"
+			}
+			if got != want(k) {
+				return fmt.Sprintf("%s %s evaluates to %d for i=%d; GP F.2 gives %d", what, abbr(exprStr(v, shapeOpts)), got, k, want(k))
+			}
+		}
+		return ""
+	}
+	widthOK := func(v ssa.Value) bool {
+		// the counter keeps at least 32 bits on its way
+		ok := true
+		var walk func(x ssa.Value, d int)
+		walk = func(x ssa.Value, d int) {
+			if d > 6 {
+				return
+			}
+			switch y := x.(type) {
+			case *ssa.Convert:
+				if intBits(y.Type()) < 32 {
+					ok = false
+				}
+				walk(y.X, d+1)
+			case *ssa.BinOp:
+				walk(y.X, d+1)
+			}
+		}
+		walk(v, 0)
+		return ok
+	}
+	var hcall *ssa.Call
+	nh := 0
+	allInstrs(f, func(in ssa.Instruction) {
+		if call, ok := in.(*ssa.Call); ok && call.Call.StaticCallee() != nil && strings.HasSuffix(call.Call.StaticCallee().String(), "hash.Blake2bHash") {
+			hcall = call
+			nh++
+		}
+	})
+	if nh != 1 {
+		c.Bad("C20.shuffle", key+" · counter and offsets", f.Pos(), "expected one Blake2b call, found %d", nh)
+		return
+	}
+	bad := ""
+	form := ""
+	isWholeHash := func(v ssa.Value) bool {
+		x, whole := wholeOf(v)
+		return whole && (abbr(exprStr(x, shapeOpts)) == "p0" || abbr(exprStr(x, shapeOpts)) == "cell(p0)" || x == ssa.Value(h))
+	}
+	parts := catValues(hcall.Call.Args[0])
+	var hashOut ssa.Value = hcall
+	switch {
+	case len(parts) == 2 && isWholeHash(parts[0]):
+		form = "per-element"
+		sc, ok := stripConv(parts[1]).(*ssa.Call)
+		if !ok || sc.Call.StaticCallee() != ser {
+			bad = "the second part of the hashed buffer is not SerializeFixedLength(counter, 4)"
+			break
+		}
+		if n, ok := constInt(sc.Call.Args[1]); !ok || n != 4 {
+			bad = "the counter is not serialised in 4 bytes"
+			break
+		}
+		if !widthOK(sc.Call.Args[0]) {
+			bad = "the block counter is narrowed below 32 bits before it is serialised: the sequence repeats for long inputs"
+			break
+		}
+		bad = evalAll(sc.Call.Args[0], func(k int64) int64 { return k / 8 }, "block counter")
+		// computed for every i: no guard between the loop head and the hash
+		if bad == "" {
+			if _, in := natLoop(hcall.Block()); in != nil {
+				reached, ok := iterReaches(hcall, shapeOpts, nil, func(string) (int64, bool) { return 0, false })
+				if !ok || !reached {
+					bad = "the hash is not recomputed for every element although it is built from the per-element counter"
+				}
+			}
+		}
+	default:
+		form = "per-block"
+		// buffer: local array or slice of |h|+4 bytes
+		buf, whole := wholeOf(hcall.Call.Args[0])
+		if !whole {
+			buf = stripConv(hcall.Call.Args[0])
+		}
+		root := localRoot(buf)
+		if root == nil {
+			bad = "the hashed buffer is neither h ⌢ E_4(counter) nor a local buffer"
+			break
+		}
+		copied, counter := false, false
+		var cval ssa.Value
+		allInstrs(f, func(in ssa.Instruction) {
+			ci, ok := in.(ssa.CallInstruction)
+			if !ok {
+				return
+			}
+			cc := ci.Common()
+			if b, isB := cc.Value.(*ssa.Builtin); isB && b.Name() == "copy" && localRoot(cc.Args[0]) == root && isWholeHash(cc.Args[1]) {
+				if sl, isSl := cc.Args[0].(*ssa.Slice); !isSl || sl.Low == nil {
+					copied = true
+				}
+			}
+			if sc := cc.StaticCallee(); sc != nil && sc.String() == "(encoding/binary.littleEndian).PutUint32" && len(cc.Args) == 3 {
+				// destination: buffer[|h|:]
+				dst := cc.Args[1]
+				for k := 0; k < 4; k++ {
+					if u, isU := dst.(*ssa.UnOp); isU {
+						if a, isA := u.X.(*ssa.Alloc); isA {
+							if sv := uniqueStore(a); sv != nil {
+								dst = sv
+								continue
+							}
+						}
+					}
+					break
+				}
+				if sl, isSl := stripConv(dst).(*ssa.Slice); isSl && localRoot(sl.X) == root && sl.Low != nil {
+					if lo, ok := evalInt(sl.Low, intEnv{closed: true}, 0); ok && lo == 32 {
+						counter = true
+						cval = cc.Args[2]
+					}
+				}
+			}
+		})
+		switch {
+		case !copied:
+			bad = "the buffer that is hashed does not start with a copy of h"
+		case !counter:
+			bad = "the block counter is not written into the buffer as a 4-byte little-endian number after h (a narrower counter wraps: the sequence repeats)"
+		case !widthOK(cval):
+			bad = "the block counter is narrowed below 32 bits before it is written"
+		default:
+			bad = evalAll(cval, func(k int64) int64 { return k / 8 }, "block counter")
+		}
+		if bad == "" {
+			// recomputed exactly when ⌊i/8⌋ changes
+			for k := int64(0); k <= 64 && bad == ""; k++ {
+				reached, ok := iterReaches(hcall, shapeOpts, nil, func(s string) (int64, bool) {
+					if s == "*" {
+						return k, true
+					}
+					return 0, false
+				})
+				if !ok {
+					bad = "the decision to recompute the hash depends on something other than the loop index"
+				} else if reached != (k%8 == 0) {
+					bad = fmt.Sprintf("for i=%d the hash is recomputed=%v; one hash covers exactly the eight numbers of a block (recompute iff i mod 8 = 0)", k, reached)
+				}
+			}
+			// the hash result is kept in a local that the extraction reads
+			for _, r := range *hcall.Referrers() {
+				if st, ok := r.(*ssa.Store); ok {
+					hashOut = st.Addr
+				}
+			}
+		}
+	}
+	if bad == "" {
+		// extraction: LE32 of hashOut[off : off+4], stored at out[i]
+		var dec *ssa.Call
+		allInstrs(f, func(in ssa.Instruction) {
+			if call, ok := in.(*ssa.Call); ok && call.Call.StaticCallee() != nil {
+				if call.Call.StaticCallee() == des || call.Call.StaticCallee().String() == "(encoding/binary.littleEndian).Uint32" {
+					dec = call
+				}
+			}
+		})
+		if dec == nil {
+			bad = "no little-endian decoding of four bytes of the hash"
+		} else {
+			arg := dec.Call.Args[len(dec.Call.Args)-1]
+			sl, ok := stripConv(arg).(*ssa.Slice)
+			fromHash := false
+			if ok {
+				switch x := sl.X.(type) {
+				case *ssa.Alloc:
+					fromHash = ssa.Value(x) == hashOut || func() bool {
+						for _, r := range *x.Referrers() {
+							if st, isSt := r.(*ssa.Store); isSt && st.Val == ssa.Value(hcall) {
+								return true
+							}
+						}
+						return false
+					}()
+				default:
+					fromHash = false
+				}
+			}
+			if !ok || sl.Low == nil || sl.High == nil || !fromHash {
+				bad = "the decoded bytes are not a two-sided slice of the hash output"
+			} else {
+				bad = evalAll(sl.Low, func(k int64) int64 { return (4 * k) % 32 }, "offset")
+				if bad == "" {
+					bad = evalAll(sl.High, func(k int64) int64 { return (4*k)%32 + 4 }, "end offset")
+				}
+			}
+			if bad == "" {
+				// stored at out[i]
+				st := false
+				allInstrs(f, func(in ssa.Instruction) {
+					if s, ok := in.(*ssa.Store); ok {
+						if ia, ok := s.Addr.(*ssa.IndexAddr); ok && stripConv(ia.Index) == ssa.Value(i) {
+							if _, isMk := ia.X.(*ssa.MakeSlice); isMk && (stripConv(s.Val) == ssa.Value(dec) || strings.Contains(exprStr(s.Val, shapeOpts), "Uint32(") || strings.Contains(exprStr(s.Val, shapeOpts), "DeserializeFixedLength(")) {
+								st = true
+							}
+						}
+					}
+				})
+				if !st {
+					bad = "the decoded number is not stored at position i of the result"
+				}
+			}
+		}
+	}
+	c.Check(bad == "", "C20.shuffle", key+" · counter and offsets", f.Pos(), fmt.Sprintf("(%s form) Blake2b(h ⌢ E_4(⌊i/8⌋)), bytes [4i mod 32, +4) decoded little-endian into r_i, for i = 0..%d", form, maxI), bad)
+	c.Check(bad == "" || !strings.Contains(bad, "narrowed"), "C20.shuffle", key+" · counter width", f.Pos(), "block counter keeps at least 32 bits", bad)
+	// the result is the freshly made sequence of the requested length
+	rs := abbrMap(returnShapesO(f, shapeOpts))["ret"]
+	okR := len(rs) >= 1
+	for _, r := range rs {
+		if r != "make([]types.U32, p1)" {
+			okR = false
+		}
+	}
+	c.Check(okR, "C20.shuffle", key+" · result", f.Pos(), "returns the freshly made sequence of the requested length", fmt.Sprintf("returns %v", rs))
+}
+
+// c20FisherYates: GP F.1 in its recursive or iterative form, as flow facts.
+func c20FisherYates(c *Ctx, f *ssa.Function) {
+	S := "shuffle."
+	key := S + "FisherYatesShuffle"
+	s0, r0 := f.Params[0], f.Params[1]
+	fresh := func() map[ssa.Value]bool { return map[ssa.Value]bool{} }
+	var isS, isR, isL func(v ssa.Value, seen map[ssa.Value]bool) bool
+	isS = func(v ssa.Value, seen map[ssa.Value]bool) bool {
+		v = stripConv(v)
+		if v == ssa.Value(s0) || seen[v] {
+			return true
+		}
+		seen[v] = true
+		if ph, ok := v.(*ssa.Phi); ok {
+			for _, e := range ph.Edges {
+				if !isS(e, seen) {
+					return false
+				}
+			}
+			return true
+		}
+		return false
+	}
+	isR = func(v ssa.Value, seen map[ssa.Value]bool) bool {
+		v = stripConv(v)
+		if v == ssa.Value(r0) || seen[v] {
+			return true
+		}
+		seen[v] = true
+		switch x := v.(type) {
+		case *ssa.Phi:
+			for _, e := range x.Edges {
+				if !isR(e, seen) {
+					return false
+				}
+			}
+			return true
+		case *ssa.Slice:
+			if k, ok := constInt(x.Low); ok && k == 1 && x.High == nil {
+				return isR(x.X, seen)
+			}
+		}
+		return false
+	}
+	isL = func(v ssa.Value, seen map[ssa.Value]bool) bool {
+		v = stripConv(v)
+		if seen[v] {
+			return true
+		}
+		seen[v] = true
+		switch x := v.(type) {
+		case *ssa.Call:
+			if b, ok := x.Call.Value.(*ssa.Builtin); ok && b.Name() == "len" {
+				return isS(x.Call.Args[0], fresh())
+			}
+		case *ssa.Phi:
+			for _, e := range x.Edges {
+				if !isL(e, seen) {
+					return false
+				}
+			}
+			return true
+		case *ssa.BinOp:
+			if k, ok := constInt(x.Y); ok && k == 1 && x.Op == token.SUB {
+				return isL(x.X, seen)
+			}
+		}
+		return false
+	}
+	isLm1 := func(v ssa.Value) bool {
+		b, ok := stripConv(v).(*ssa.BinOp)
+		if !ok || b.Op != token.SUB {
+			return false
+		}
+		k, ok := constInt(b.Y)
+		return ok && k == 1 && isL(b.X, fresh())
+	}
+	// index = R[0] % u32(L)
+	isIndex := func(v ssa.Value) bool {
+		b, ok := stripConv(v).(*ssa.BinOp)
+		if !ok || b.Op != token.REM {
+			return false
+		}
+		ld, ok := stripConv(b.X).(*ssa.UnOp)
+		if !ok || ld.Op != token.MUL {
+			return false
+		}
+		ia, ok := ld.X.(*ssa.IndexAddr)
+		if !ok || !isR(ia.X, fresh()) {
+			return false
+		}
+		k, ok := constInt(ia.Index)
+		return ok && k == 0 && isL(b.Y, fresh())
+	}
+	elem := func(v ssa.Value) (idx ssa.Value, ok bool) {
+		ld, isLd := stripConv(v).(*ssa.UnOp)
+		if !isLd || ld.Op != token.MUL {
+			return nil, false
+		}
+		ia, isIA := ld.X.(*ssa.IndexAddr)
+		if !isIA || !isS(ia.X, fresh()) {
+			return nil, false
+		}
+		return ia.Index, true
+	}
+	// stores into s
+	var swapA, swapB bool
+	nst := 0
+	allInstrs(f, func(in ssa.Instruction) {
+		st, ok := in.(*ssa.Store)
+		if !ok {
+			return
+		}
+		ia, ok := st.Addr.(*ssa.IndexAddr)
+		if !ok || !isS(ia.X, fresh()) {
+			return
+		}
+		nst++
+		vi, vok := elem(st.Val)
+		switch {
+		case isIndex(ia.Index) && vok && isLm1(vi):
+			swapA = true // s[index] ← s[L-1]
+		case isLm1(ia.Index) && vok && isIndex(vi):
+			swapB = true // s[L-1] ← s[index]
+		}
+	})
+	c.Check(swapA && swapB && nst == 2, "C20.shuffle", key+" · swap", f.Pos(), "s[r_0 mod L] and s[L−1] are exchanged (L the current length), nothing else of s is written", fmt.Sprintf("the selected element is not exchanged with the last one (s[index]←s[L−1]=%v, s[L−1]←s[index]=%v, stores into s=%d)", swapA, swapB, nst))
+	// the selected element is emitted, in order
+	var rec *ssa.Call
+	allInstrs(f, func(in ssa.Instruction) {
+		if call, ok := in.(*ssa.Call); ok && call.Call.StaticCallee() == f {
+			rec = call
+		}
+	})
+	emitted := false
+	order := false
+	allInstrs(f, func(in ssa.Instruction) {
+		call, ok := in.(*ssa.Call)
+		if !ok {
+			return
+		}
+		if b, isB := call.Call.Value.(*ssa.Builtin); !isB || b.Name() != "append" || len(call.Call.Args) != 2 {
+			return
+		}
+		sel := func(v ssa.Value) bool {
+			es := appendedElems(v)
+			if len(es) != 1 {
+				return false
+			}
+			ix, ok := elem(es[0])
+			return ok && isIndex(ix)
+		}
+		switch {
+		case rec != nil && sel(call.Call.Args[0]) && stripConv(call.Call.Args[1]) == ssa.Value(rec):
+			emitted, order = true, true // [selected] ⌢ F(rest)
+		case rec == nil && sel(call.Call.Args[1]):
+			emitted = true
+			if _, isPhi := stripConv(call.Call.Args[0]).(*ssa.Phi); isPhi {
+				order = true // output ⌢ [selected], round after round
+			}
+		}
+	})
+	c.Check(emitted && order, "C20.shuffle", key+" · output", f.Pos(), "each round's selected element s[r_0 mod L] is emitted, first round first", "the selected element is not emitted in round order")
+	// the next round works on (s[:L−1], r[1:])
+	next := false
+	if rec != nil {
+		a0, ok0 := stripConv(rec.Call.Args[0]).(*ssa.Slice)
+		a1 := rec.Call.Args[1]
+		next = ok0 && a0.Low == nil && a0.High != nil && isLm1(a0.High) && isS(a0.X, fresh()) && isR(a1, fresh()) && stripConv(a1) != ssa.Value(r0)
+	} else {
+		// loop: L decreases by one and r advances by one per round
+		decL, advR := false, false
+		allInstrs(f, func(in ssa.Instruction) {
+			ph, ok := in.(*ssa.Phi)
+			if !ok {
+				return
+			}
+			for k, e := range ph.Edges {
+				if !ph.Block().Dominates(ph.Block().Preds[k]) {
+					continue
+				}
+				if isIntegerT(ph.Type()) && isL(ph, fresh()) {
+					if b, isB := stripConv(e).(*ssa.BinOp); isB && b.Op == token.SUB && stripConv(b.X) == ssa.Value(ph) {
+						if k1, ok := constInt(b.Y); ok && k1 == 1 {
+							decL = true
+						}
+					}
+				}
+				if sl, isSl := stripConv(e).(*ssa.Slice); isSl && isR(ph, fresh()) && stripConv(sl.X) == ssa.Value(ph) {
+					if k1, ok := constInt(sl.Low); ok && k1 == 1 && sl.High == nil {
+						advR = true
+					}
+				}
+			}
+		})
+		next = decL && advR
+	}
+	c.Check(next, "C20.shuffle", key+" · next round", f.Pos(), "continues on (s[:L−1], r[1:])", "the next round does not work on the first L−1 elements with the next random number")
+	// empty input ↦ empty (non-nil) result
+	rs := abbrMap(returnShapesO(f, shapeOpts))["ret"]
+	okE := false
+	for _, r := range rs {
+		for _, a := range expandAlts(r) {
+			if a == "[][:0]" || strings.HasPrefix(a, "make([]types.U32, 0") || strings.HasPrefix(a, "⊕(make([]types.U32, 0)") {
+				okE = true
+			}
+		}
+	}
+	c.Check(okE, "C20.shuffle", key+" · empty", f.Pos(), "an empty sequence gives an empty (non-nil) result", fmt.Sprintf("the result for the empty sequence is %v", rs))
 }
